@@ -68,6 +68,17 @@ def kernel_cases(ctx):
                         cases.append({"nq": 2, "nb": 0, "specs": [["ctrl", 0, ["bsr", 1, ax, a, 0.0]]], "pass": ["decompose", d]})
                     else:
                         cases.append({"nq": 1, "nb": 0, "specs": [["bsr", 0, ax, a, 0.0]], "pass": ["decompose", d]})
+    #  - random directions x angles inside the ATOL band around +-pi (8-digit renderings and pi -+ 5e-8): the half-turn
+    #    branches are entered although the angle is not pi, with an axis of no special shape
+    for d in DEC_NAMES:
+        for _ in range(40 if d == "cnot" else 8):
+            ax = gen.rand_axis(rng) if rng.random() < 0.5 else [rng.gauss(0, 1) for _ in range(3)]
+            for a in (3.1415927, -3.1415927, PI - 5e-8, -PI + 5e-8):
+                ph = rng.choice([0.0, PI / 2, rng.uniform(-PI, PI)])
+                if d == "cnot":
+                    cases.append({"nq": 2, "nb": 0, "specs": [["ctrl", 0, ["bsr", 1, ax, a, ph]]], "pass": ["decompose", d]})
+                else:
+                    cases.append({"nq": 1, "nb": 0, "specs": [["bsr", 0, ax, a, ph]], "pass": ["decompose", d]})
     for d, ax, a in full:
         ph = rng.choice([0.0, PI / 2, rng.uniform(-PI, PI)])
         if d == "cnot":
@@ -128,8 +139,11 @@ def evaluate(case):
     c = gen.build_circuit(case["nq"], case["nb"], case["specs"])
     before = list(c.ir.statements)
     pre = ser.ser_stmts(c.ir.statements)
+    # the reference the result is judged against is built independently: a pass that mutates the statement objects it was
+    # given (and then checks its proposal against the mutated gate) must not drag the oracle's reference along
+    ref = list(gen.build_circuit(case["nq"], case["nb"], case["specs"]).ir.statements)
     err, post = implrun.run_impl(c, case["pass"])
-    return {"circuit": c, "before": before, "pre": pre, "err": err, "post": post, "after": list(c.ir.statements)}
+    return {"circuit": c, "before": before, "ref": ref, "pre": pre, "err": err, "post": post, "after": list(c.ir.statements)}
 
 
 def compare_with_model(ctx, suite, cases, evals, tol=2e-7, twins=None):
@@ -173,7 +187,7 @@ def oracle_c01(ctx, suite, case, ev, eq):
         ctx.oracle_fail(suite, case, "registers changed", eq)
         return
     tol = 2e-6 * (1 + gates_count(after))
-    ok, why = oracles.kraus_equivalent(before, after, tol)
+    ok, why = oracles.kraus_equivalent(ev.get("ref", before), after, tol)
     if not ok:
         ctx.oracle_fail(suite, case, "not equivalent: " + why, eq, tags=failure_tags(case, ev))
 
